@@ -4,5 +4,6 @@ From Verif Require Import C14.Model.
 Definition m_write_file := write_file.
 Definition m_file_session := file_session.
 Definition m_run := run.
+Definition m_write_file_limited := write_file_limited.
 Definition m_fs (d : option (content * Z)) : fs := {| dest := d; temp := None |}.
-Extraction "c14.ml" m_write_file m_file_session m_run m_fs.
+Extraction "c14.ml" m_write_file m_file_session m_run m_fs m_write_file_limited.
